@@ -53,6 +53,9 @@ var sites = []site{
 	// ---- vote accounting thresholds (C15, C01, C02, C13, C14)
 	{"voteSet_quorum", "gemmill/types/vote_set.go", "addVerifiedVote", "assign", `^quorum$`, "", "C15 C01"},
 	{"voteSet_crossed", "gemmill/types/vote_set.go", "addVerifiedVote", "if", `origSum\W+quorum`, "", "C15 C01"},
+	{"blockID_equals", "gemmill/types/block.go", "Equals", "return", `bytes\.Equal\(blockID\.Hash`, "", "C13 C15 C02"},
+	{"partSetHeader_equals", "gemmill/types/part_set.go", "Equals", "return", `psh\.Total`, "", "C13 C15 C02 C17"},
+	{"valset_update_total", "gemmill/types/validator_set.go", "Update", "assign", `^valSet\.totalVotingPower$`, "", "C15 C16 C14"},
 	{"voteSet_twoThirdsAny", "gemmill/types/vote_set.go", "HasTwoThirdsAny", "return", `TotalVotingPower`, "", "C15 C04"},
 	{"voteSet_hasAll", "gemmill/types/vote_set.go", "HasAll", "return", `TotalVotingPower`, "", "C15 C04"},
 	{"verifyCommit_enough", "gemmill/types/validator_set.go", "VerifyCommit", "if", `talliedVotingPower\W+valSet`, "", "C02 C13 C15"},
